@@ -581,3 +581,54 @@ func ZZ_C08_forin_long() {
 		zz.Assertf(r == 0, "C08.for-in-long/return-ends-the-function/"+id, src)
 	}
 }
+
+// ZZ_C08_switch_first_equal: a switch executes exactly the first case equal to
+// its subject under the language's own `==` (the relation C06 fixes; it
+// coerces: 1 == 1.0, 1 == "1", true == 1) - whatever the kinds of the case
+// literals around it - else the default.  Subject and two or three case
+// literals range over a pool of values that are equal across kinds; the
+// oracle is the real `==` operator on the same operands, in case order.
+func ZZ_C08_switch_first_equal() {
+	pool := []string{"1", "1.0", "\"1\"", "true", "2", "\"2\"", "0", "nil", "\"\"", "false", "2.0"}
+	three := zz.Choose(2) == 1
+	n := len(pool)
+	if three {
+		n = 7
+	}
+	s := pool[zz.Choose(n)]
+	cs := []string{pool[zz.Choose(n)], pool[zz.Choose(n)]}
+	if three {
+		cs = append(cs, pool[zz.Choose(n)])
+	}
+	multi := !three && zz.Choose(2) == 1 // `case A, B:` lists two expressions in one clause
+	src := "r = 0; switch " + s + " { "
+	if multi {
+		src += "case " + cs[0] + ", " + cs[1] + ": r = 1; "
+	} else {
+		for i, c := range cs {
+			src += fmt.Sprintf("case %s: r = %d; ", c, i+1)
+		}
+	}
+	src += "default: r = 9 }; r"
+	want := int64(9)
+	for i, c := range cs {
+		v, err := Execute(env.NewEnv(), nil, s+" == "+c)
+		if err != nil {
+			return
+		}
+		if b, _ := v.(bool); b {
+			want = int64(i + 1)
+			if multi {
+				want = 1
+			}
+			break
+		}
+	}
+	v, err := Execute(env.NewEnv(), nil, src)
+	zz.Assertf(err == nil, "C08.switch/first-equal-case/runs", src)
+	if err != nil {
+		return
+	}
+	got, _ := v.(int64)
+	zz.Assertf(got == want, "C08.switch/exactly-the-first-case-equal-to-the-subject", fmt.Sprintf("%s: took %d, want %d", src, got, want))
+}
